@@ -23,6 +23,9 @@ vars == <<model, store, bad>>
 Init == model = [full |-> "", noloc |-> "", apps |-> ""] /\ store = {} /\ bad = {}
 
 Compile(m) == model' = m /\ store' = {} /\ bad' = {}
+\* the module is edited in place after it has been written: what is written from now on is the edited model (what was
+\* found wrong so far stays found)
+Edit(m) == model' = m /\ store' = {} /\ UNCHANGED bad
 
 Others(fmt, compact) == {a \in store : ~(a.fmt = fmt /\ a.compact = compact)}
 \* the file already holds the artefact of an earlier model
@@ -61,6 +64,7 @@ Foreign(okjson, okyaml, appsjson, appsyaml) ==
 \* design-level sanity on an abstract environment that encodes and decodes faithfully
 CONSTANT Digests
 NextFaithful == \/ \E d \in Digests : Compile([full |-> d, noloc |-> d, apps |-> d])
+                \/ \E d \in Digests : Edit([full |-> d, noloc |-> d, apps |-> d])
                 \/ \E f \in Formats, c \in BOOLEAN : Encode(f, c, TRUE)
                 \/ \E f \in Formats, c \in BOOLEAN, d \in Digests : Prior(f, c, TRUE, d)
                 \/ \E a \in store : a.of = model.full /\ Decode(a.fmt, a.compact, TRUE, model.full, model.noloc)
